@@ -46,7 +46,13 @@ fn write_outputs(out: &str, ctxs: &[Ctx], extra: BTreeMap<String, String>) {
             writeln!(o, "{l}").unwrap();
         }
         for f in &c.fails {
-            writeln!(fails, "{}\t{}\t{}\t{}\tt{}", f.case, f.line, f.oracle, f.msg.replace('\n', " "), i).unwrap();
+            writeln!(fails, "{}\t{}\t{}\t{}\t{}{}", f.case, f.line, f.oracle, f.msg.replace('\n', " "), if f.side { "x" } else { "t" }, i).unwrap();
+        }
+        if !c.side_prog.is_empty() {
+            let mut x = std::io::BufWriter::new(std::fs::File::create(format!("{out}/x{i}.prog")).unwrap());
+            for l in &c.side_prog {
+                writeln!(x, "{l}").unwrap();
+            }
         }
         for (k, v) in &c.counters {
             *counters.entry(k.clone()).or_insert(0) += v;
@@ -90,6 +96,29 @@ where
                         exec::run_program(&lines, ctx);
                         ctx.count("cases");
                         i += n;
+                    }
+                })
+                .unwrap();
+        }
+    });
+}
+
+/// like `spread`, but the job gets the worker's context and runs whatever it wants itself
+fn spread_with<F>(ctxs: &mut [Ctx], njobs: usize, f: F)
+where
+    F: Fn(usize, &mut Ctx) + Sync,
+{
+    let nt = ctxs.len();
+    std::thread::scope(|s| {
+        for (t, ctx) in ctxs.iter_mut().enumerate() {
+            let f = &f;
+            std::thread::Builder::new()
+                .stack_size(256 << 20)
+                .spawn_scoped(s, move || {
+                    let mut i = t;
+                    while i < njobs && !exec::stopped() {
+                        f(i, ctx);
+                        i += nt;
                     }
                 })
                 .unwrap();
@@ -734,6 +763,37 @@ fn c15_props(tier: &str, seed: u64, threads: usize, out: &str) {
         }
     });
     extra.insert("programs".into(), format!("{n} programs, each run on both members of its pair (edge histories with handle provenance, all traversal configurations, containers, scc, DOT, serde round trips, comparisons)"));
+    // two live node objects with one key: compared between the two implementations only (nodes are keys in the model)
+    exec::new_section();
+    let ntw = if quick { 300 } else { 6000 };
+    spread_with(&mut ctxs, ntw, |i, ctx| {
+        let mut rng = Rng::new(seed.wrapping_mul(89).wrapping_add(i as u64));
+        let (a, b) = if i % 2 == 0 { ("di", "sdi") } else { ("un", "sun") };
+        let id = format!("tw{i}");
+        let nn = 3 + rng.below(if i % 3 == 0 { 20 } else { 5 });
+        let lines = gen_edge::twin_history(&mut rng, a, &id, nn, if quick { 90 } else { 160 });
+        let mut lines_b = lines.clone();
+        lines_b[0] = format!("case {b} {id}");
+        let mut ca = Ctx::default();
+        let mut cb = Ctx::default();
+        exec::run_program(&lines, &mut ca);
+        exec::run_program(&lines_b, &mut cb);
+        ctx.side_prog.extend(lines.iter().cloned());
+        for j in 0..ca.outs.len().max(cb.outs.len()) {
+            let (x, y) = (ca.outs.get(j).cloned().unwrap_or("<missing>".into()), cb.outs.get(j).cloned().unwrap_or("<missing>".into()));
+            if x != y {
+                let req = ca.prog.get(j).cloned().unwrap_or_default();
+                ctx.fail(&lines[0], j.saturating_sub(1), "c15", format!("(two node objects with one key) `{}`: {a} gives `{}` but {b} gives `{}`", req, x, y));
+                if let Some(f) = ctx.fails.last_mut() {
+                    f.side = true;
+                }
+                break;
+            }
+        }
+        ctx.count("pairs.twins");
+        ctx.count("cases");
+    });
+    extra.insert("twins".into(), format!("{ntw} histories with two live node objects of one key, run on both members of a pair (differential only)"));
     write_outputs(out, &ctxs, extra);
 }
 
